@@ -244,7 +244,71 @@ def _all(e):
     return out
 
 
+def own_object_per_element(ctx, mdl, rule):
+    """a document whose elements carry NO transform and repeat the same path data: every element still yields its own path object,
+    tagged with that element, in document order.  parse_path hands out a fresh object per call and transform() returns its
+    argument for the identity matrix -- exactly what the real functions do -- so a traversal that shares parsed geometry between
+    elements with equal data overwrites the tags of the earlier ones."""
+    a0 = Elem('path', {'d': 'M0,0 L1,1', 'id': 'a0', 'stroke': 'red'})
+    a1 = Elem('path', {'d': 'M5,5 L6,6', 'id': 'a1'})
+    a2 = Elem('path', {'d': 'M0,0 L1,1', 'id': 'a2', 'stroke': 'blue'})
+    a3 = Elem('path', {'d': 'M0,0 L1,1', 'id': 'a3'})
+    g = Elem('g', {}, [a2, a3])
+    root = Elem('svg', {}, [a0, a1, g])
+    DocC = mdl.cls('document.Document')
+    routes = [('flattened_paths', mdl.func('document.flattened_paths'))] + [('Document.' + m, DocC.methods[m]) for m in ('paths',) if m in DocC.methods]
+    for label, fi in routes:
+        def th(it, label=label):
+            cache = {}
+            made = []
+
+            def pp(it2, a, k):
+                o = Opaque('parsed:%s' % (a[0],))
+                made.append(o)
+                return o
+            it.call_hooks['parser.parse_path'] = pp
+
+            def tf(it2, a, k):
+                m = a[1]
+                if isinstance(m, Arr) and m.equals(ident()):
+                    return a[0]
+                o = Opaque('transformed')
+                made.append(o)
+                return o
+            it.call_hooks['path.transform'] = tf
+            wroot = _wrap(it, root, cache)
+            if label == 'flattened_paths':
+                res = it.call(it.closure_of('document.flattened_paths'), [wroot], {})
+            else:
+                doc = it.new_obj('document.Document')
+                tree = Opaque('ElementTree')
+                tree.attrs['getroot'] = PyFunc(lambda it2, a, k: wroot, 'getroot')
+                doc.attrs['tree'] = tree
+                doc.attrs['root'] = wroot
+                res = it.call_method(doc, label.split('.')[1])
+            res = list(res)
+            return [(id(p), p.attrs.get('element').attrs['__elem__'].attrib.get('id') if isinstance(p.attrs.get('element'), Opaque) else None,
+                     getattr(p, 'what', None)) for p in res]
+
+        def judge(v):
+            ids = [i for i, _, _ in v]
+            tags = [t for _, t, _ in v]
+            probs = []
+            if len(set(ids)) != len(ids):
+                probs.append('one path object is returned for several elements')
+            if sorted(t or '' for t in tags) != ['a0', 'a1', 'a2', 'a3']:
+                probs.append('the returned paths are tagged with elements %s, the document holds a0, a1, a2, a3' % (tags,))
+            want = {'a0': 'parsed:M0,0 L1,1', 'a1': 'parsed:M5,5 L6,6', 'a2': 'parsed:M0,0 L1,1', 'a3': 'parsed:M0,0 L1,1'}
+            for _, t, w in v:
+                if t in want and w != want[t]:
+                    probs.append('%s carries the geometry %s' % (t, w))
+            return not probs, '; '.join(probs)
+        Obligation(ctx, rule).run(fi, '%s: elements with equal path data and no transform keep their own path objects' % label, th, judge,
+                                  opts={'ext_hooks': {'warnings.warn': lambda it, a, k: None}})
+
+
 def _traversals(ctx, mdl):
+    own_object_per_element(ctx, mdl, 'R17.3')
     # tree:  svg[TA] -> g[TB] -> path#p1[TC]           expected p1: A.B.C
     #                        -> g[TD] -> line#l1         expected l1: A.B.D
     #              -> rect#r1[TE]                        expected r1: A.E
@@ -351,6 +415,55 @@ def _traversals(ctx, mdl):
                     probs.append('%s is not expressed in the root frame' % k_)
             return not probs, '; '.join(probs)
         Obligation(ctx, 'R17.3').run(fgrp, 'flattened_paths_from_group(%s, recursive=%s)' % (qname, rec), th_grp, judge_grp,
+                                     opts={'ext_hooks': {'warnings.warn': lambda it, a, k: None}})
+
+    # ... and through the public methods of Document (paths / paths_from_group), which may take their own route to the answer
+    DocC = mdl.cls('document.Document')
+    for meth, qname, q, rec, want in (('paths_from_group', 'g[TB]', g1, False, {'p0', 'p1', 'p2'}), ('paths_from_group', 'g[TD]', g2, False, {'l0', 'l1'}),
+                                      ('paths_from_group', 'g[TG]', g3, False, {'q1'}), ('paths_from_group', 'g[TD]', g2, True, {'l0', 'l1', 'q1'}),
+                                      ('paths', 'the document', None, None, set(expect))):
+        if meth not in DocC.methods:
+            continue
+
+        def th_docm(it, meth=meth, q=q, rec=rec):
+            cache = {}
+            applied = []
+            it.ext_hooks['builtins.float'] = sym_float_hook
+            it.call_hooks['parser.parse_path'] = lambda it2, a, k: Opaque('parsed')
+            for c in ('path2pathd', 'ellipse2pathd', 'line2pathd', 'polyline2pathd', 'polygon2pathd', 'rect2pathd'):
+                it.call_hooks['svg_to_paths.' + c] = lambda it2, a, k: 'D'
+
+            def tf(it2, a, k):
+                o = Opaque('transformed')
+                applied.append((a[1], o))
+                return o
+            it.call_hooks['path.transform'] = tf
+            doc = it.new_obj('document.Document')
+            tree = Opaque('ElementTree')
+            wroot = _wrap(it, root, cache)
+            for e_ in _all(root):                      # an element iterates over its children, like xml.etree's
+                w = _wrap(it, e_, cache)
+                w.attrs['__iter__'] = PyFunc(lambda it2, a, k, e_=e_: [_wrap(it2, c, cache) for c in e_.children], '__iter__')
+            tree.attrs['getroot'] = PyFunc(lambda it2, a, k: wroot, 'getroot')
+            doc.attrs['tree'] = tree
+            doc.attrs['root'] = wroot
+            res = it.call_method(doc, meth, _wrap(it, q, cache), **{'recursive': rec}) if q is not None else it.call_method(doc, meth)
+            out = {}
+            for p in res:
+                el = p.attrs.get('element')
+                m = [t for t, o in applied if o is p]
+                out[el.attrs['__elem__'].attrib.get('id')] = m[0] if m else None
+            return out
+
+        def judge_docm(v, want=want):
+            probs = []
+            if set(v) != want:
+                probs.append('returns %s, expected %s' % (sorted(v), sorted(want)))
+            for k_ in sorted(set(v) & want):
+                if not (isinstance(v[k_], Arr) and v[k_].equals(expect[k_])):
+                    probs.append('%s is not expressed in the root frame (outermost ancestor first)' % k_)
+            return not probs, '; '.join(probs)
+        Obligation(ctx, 'R17.3').run(DocC.methods[meth], 'Document.%s(%s%s)' % (meth, qname, '' if rec is None else ', recursive=%s' % rec), th_docm, judge_docm,
                                      opts={'ext_hooks': {'warnings.warn': lambda it, a, k: None}})
 
     fsax = mdl.func('svg_io_sax.SaxDocument.sax_parse')
